@@ -92,3 +92,42 @@ def run_c18(prop, tier, seed, scratch):
                      "(FoldLaw); the harness concretises with the identity, with power-of-two scalings 2^3, 2^40, 2^61 (sums leave the int64 range, products wrap; "
                      "every operand and partial result stays exactly representable so equality is exact) and with monotone extreme values. "
                      "distinct_nontrivial = distinct lists.")
+
+
+ENTRY_POINTS = ["NewList", "NewListOf", "NewListFrom", "Add", "Insert", "Replace", "SetTF(list)", "NewObject", "NewObjectFrom", "Set", "SetTF(object)",
+                "list.Map", "list.MapInts", "list.MapAsync", "object.Map", "object.MapStrings", "object.MapAsync"]
+CONTEXTS = ["direct", "in []any", "in map[string]any", "depth 2"]
+
+
+def run_c12(prop, tier, seed, scratch):
+    q = tier == "quick"
+    vh = build_harness(scratch)
+    cov = dict(states=0, transitions=0, traces_validated_against_impl=0, evaluations=0, distinct_nontrivial=0, configs=[], samples=[], exhaustive=True, spec_drift=[],
+               rule="TLC enumerates every (entry point, native Go class, nesting context) triple of spec/Convert.tla with the normal form the class must get "
+                    "(NormalFormLaw: exactly one normal form per class, exactly the matching typed getter); the harness runs the members of each class through the "
+                    "real entry point: all 256 values of int8/uint8, all (quick: every 7th) values of int16/uint16, boundaries and random values of the 32/64-bit widths "
+                    "(unsigned up to MaxInt), float32 incl. subnormals and random bit patterns, every map/slice flavour (with nil interface elements, with later "
+                    "mutation of the source), 19 unsupported classes. distinct_nontrivial = distinct triples.",
+               checker_cmd="tlc MC.tla (spec/Convert.tla) ; vh convert")
+    violations = []
+    name = prop + "-convert"
+    sset = lambda xs: "{" + ", ".join('"%s"' % x for x in xs) + "}"
+    mod = "---- MODULE MC ----\nEXTENDS Convert\n====\n"
+    cfg = "CONSTANTS\n EntryPoints = %s\n Contexts = %s\n Emit = TRUE\nSPECIFICATION Spec\nINVARIANTS NormalFormLaw\nCHECK_DEADLOCK FALSE\n" % (sset(ENTRY_POINTS), sset(CONTEXTS))
+    res = run_tlc(scratch, name, mod, cfg, ["Convert.tla"], 600)
+    if not res["ok"]:
+        raise Inconclusive("TLC did not finish cleanly on %s (rc=%s):\n%s" % (name, res["rc"], res["tail"][-3000:]))
+    log("[tlc] %s: %d states, %d transitions, %.1fs" % (name, res["states"], res["transitions"], res["wall_s"]))
+    cov["states"], cov["transitions"] = res["states"], res["transitions"]
+    out = scratch.path("convert.json")
+    rc, so, se, wall = run_vh(vh, ["convert", "-in", res["out_path"], "-prop", prop, "-seed", str(seed), "-out", out, "-replaydir", scratch.sub("replays")]
+                              + ([] if q else ["-full"]), 3600)
+    s = json.load(open(out))
+    log("[convert] %s: %d TLC records, %d evaluations, %.1fs" % (name, s["tlc_records"], s["evaluations"], wall))
+    cov["traces_validated_against_impl"] = s["tlc_records"]
+    cov["evaluations"] = s["evaluations"]
+    cov["distinct_nontrivial"] = s["distinct"]
+    cov["configs"].append(dict(name=name, entry_points=ENTRY_POINTS, contexts=CONTEXTS, tlc_states=res["states"], tlc_records=s["tlc_records"], full_width=not q))
+    cov["samples"] = (s.get("samples") or [])[:4]
+    violations = s.get("violations") or []
+    return cov, violations
